@@ -1,3 +1,4 @@
+import clichecks
 import depgraphs
 import histories
 import layouts
@@ -9,8 +10,10 @@ def warm_layouts():
     layouts.load_cases("Layouts_chain.cfg")
     import common as C
     for m, c in [("History", "History_c06_quick.cfg"), ("History", "History_c07_quick.cfg"),
-                 ("DepGraphs", "DepGraphs_cycles.cfg"), ("DepGraphs", "DepGraphs_scopes.cfg")]:
+                 ("DepGraphs", "DepGraphs_cycles.cfg"), ("DepGraphs", "DepGraphs_scopes.cfg"),
+                 ("Layouts", "Layouts_cli.cfg")]:
         C.run_tlc(m, c, workers=12, timeout=7200)
+    C.run_tlc("Lsp", "Lsp_quick.cfg", workers=8, timeout=3600)
 
 
 CHECKS = {
@@ -23,5 +26,6 @@ CHECKS = {
     "C08": layouts.check_c08,
     "C16": depgraphs.check_c16,
     "C19": lspchecks.check_c19,
+    "C20": clichecks.check_c20,
 }
 WARM = [warm_layouts]
